@@ -952,12 +952,12 @@ func writeEvidence(dir, prop, tier string, seed uint64, cfg propCfg, results []*
 			"violations_reported":            reported,
 			"known_findings_seen":            knownList,
 			"other_property_violations_seen": others,
-			"components_real":                []string{"app/router (run, listeners udp/tcp/tls/http/fasthttp/https, handler, rules, cache ctl, limiter glue)", "internal/dnsmsg codec", "internal/cache (otter)", "internal/domain_matcher", "internal/upstream + transport (pipeline, reuse, doh)", "connpool (instrumented copy: sync->vsync)", "crypto/tls", "net/http + x/net/http2", "fasthttp"},
-			"components_stub":                []string{"sockets (vnet simulated network)", "clock (testing/synctest fake clock)", "gnet engine (vgnet event-loop stub with gnet v2.3.6 buffer semantics)", "gopool -> go fn()", "bytespool wrapped by poisoning layer (vbytes)", "x/net/ipv6 ReadBatch (vipv6)", "udpcmsg (unsupported on simulated sockets)"},
+			"components_real":                []string{"app/router (run, the router command line, listeners udp/tcp/tls/http/fasthttp/https/quic, handler, rules, cache ctl, limiter glue)", "internal/dnsmsg codec", "internal/cache (otter memory cache; redis.go above the client library)", "internal/domain_matcher", "internal/limiter", "internal/netlist", "internal/upstream + transport (pipeline, reuse, doh, quic)", "connpool (instrumented copy: sync->vsync)", "quic-go incl. http3 (patched copy: inclusive deadline comparisons, 1us per timer wake-up, sync->vsync in http3 client)", "crypto/tls", "net/http + x/net/http2", "fasthttp", "mapstructure / yaml / cobra (cli arm)"},
+			"components_stub":                []string{"sockets (vnet simulated network)", "clock (testing/synctest fake clock)", "gnet engine (vgnet event-loop stub with gnet v2.3.6 buffer semantics)", "redis client library and server (vredis: GET/SET NX PX/PING on the fake clock, no RESP byte stream)", "gopool -> go fn()", "bytespool wrapped by poisoning layer (vbytes)", "sync.Pool of dnsmsg/router -> deterministic poisoning free list (vsync.Pool; real pool in -race builds)", "x/net/ipv6 ReadBatch (vipv6)", "udpcmsg (unsupported on simulated sockets)", "os/signal (no-op)"},
 		},
 		"assumptions": []string{
 			"the simulated network's error model (see DESIGN.md 3.2) is what a Linux kernel would do",
-			"interleavings are explored at lock boundaries, blocking operations and network events, not at arbitrary instructions",
+			"interleavings are explored at lock boundaries, blocking operations, network events and inserted scheduling points (domain matcher, router.go), not at arbitrary instructions",
 			"a clean batch is evidence from seeded sampling, not proof",
 		},
 	}
